@@ -195,8 +195,13 @@ def evaluate(ck, recs):
             continue
         for (term, rec, q), code in zip(items, res):
             ck.count()
+            if not all(q.get("body") or []):
+                ck.fail_case("c19:%s:body" % kind, "sync RPC handler served a block whose encoding (header, transactions, assets) differs from "
+                             "the stored block (responder removed %d blocks with a block cache of %d): %s" % (
+                                 rec["heights"][2], rec["cache"], json.dumps(dict(rec, reqs=[q]))[:900]), dict(rec, reqs=[q]),
+                             corr="served blocks vs stored blocks (full encoding)")
             ck.nontrivial((kind, q.get("bad", ""), len(q.get("out") or []), bool(q.get("errset")), bool(q.get("nil")),
-                           rec["cache"], rec["heights"][0] > 0xfffff000, rec["heights"][2] > 0))
+                           rec["cache"], rec["heights"][0] > 0xfffff000, rec["heights"][2] > 0, rec["heights"][2] >= rec["cache"]))
             if code != 0:
                 one = dict(rec, reqs=[q])
                 add_failure(ck, kind, code,
